@@ -47,6 +47,7 @@ type Job struct {
 	Replay   bool   // only replay Path/Choices and check the last transition
 	ListOnly bool   // only report the enabled events
 	Only     string // expand only this event
+	Tag      string // selects the model inside a multi-model worker
 }
 
 // Succ is one successor found.
@@ -230,8 +231,11 @@ func Expand(m Model, job Job) *JobResult {
 }
 
 // WorkerMain serves expansion jobs over stdin/stdout.
-func WorkerMain(m Model) {
-	m.Setup()
+func WorkerMain(m Model) { WorkerMainMulti(func(string) Model { return m }) }
+
+// WorkerMainMulti serves jobs for several models, selected by Job.Tag (models are created and set up on first use).
+func WorkerMainMulti(mk func(tag string) Model) {
+	models := map[string]Model{}
 	in := bufio.NewScanner(os.Stdin)
 	in.Buffer(make([]byte, 1<<20), 1<<26)
 	out := bufio.NewWriter(os.Stdout)
@@ -240,6 +244,19 @@ func WorkerMain(m Model) {
 		var job Job
 		if err := json.Unmarshal(in.Bytes(), &job); err != nil {
 			continue
+		}
+		m := models[job.Tag]
+		if m == nil {
+			m = mk(job.Tag)
+			if m == nil {
+				b, _ := json.Marshal(&JobResult{Job: job, Err: "unknown model tag " + job.Tag})
+				out.Write(b)
+				out.WriteByte('\n')
+				out.Flush()
+				continue
+			}
+			m.Setup()
+			models[job.Tag] = m
 		}
 		res := Expand(m, job)
 		b, _ := json.Marshal(res)
@@ -303,6 +320,51 @@ func startWorker(args []string) (*worker, error) {
 	return w, nil
 }
 
+// Pool is a set of persistent worker processes shared by all levels and runs of a check.
+type Pool struct {
+	args    []string
+	procs   int
+	mu      sync.Mutex
+	idle    []*worker
+	started int
+}
+
+// NewPool creates a pool; workers are started lazily.
+func NewPool(workerArgs []string, procs int) *Pool { return &Pool{args: workerArgs, procs: procs} }
+
+func (p *Pool) get() (*worker, error) {
+	p.mu.Lock()
+	if n := len(p.idle); n > 0 {
+		w := p.idle[n-1]
+		p.idle = p.idle[:n-1]
+		p.mu.Unlock()
+		return w, nil
+	}
+	p.started++
+	p.mu.Unlock()
+	return startWorker(p.args)
+}
+
+func (p *Pool) put(w *worker) {
+	if w.n >= 4000 {
+		w.closer()
+		return
+	}
+	p.mu.Lock()
+	p.idle = append(p.idle, w)
+	p.mu.Unlock()
+}
+
+// Close terminates all idle workers.
+func (p *Pool) Close() {
+	p.mu.Lock()
+	defer p.mu.Unlock()
+	for _, w := range p.idle {
+		w.closer()
+	}
+	p.idle = nil
+}
+
 // Search runs the level-synchronous BFS up to maxDepth, using procs worker processes.
 func Search(rep *common.Report, workerArgs []string, maxDepth, procs int, deadline time.Time, sampleEvery int) *Stats {
 	return SearchF(rep.Add, rep.Sample, workerArgs, maxDepth, procs, deadline, sampleEvery)
@@ -310,6 +372,14 @@ func Search(rep *common.Report, workerArgs []string, maxDepth, procs int, deadli
 
 // SearchF is Search with explicit violation and sample sinks.
 func SearchF(addViol func(common.Violation), addSample func(any), workerArgs []string, maxDepth, procs int, deadline time.Time, sampleEvery int) *Stats {
+	pool := NewPool(workerArgs, procs)
+	defer pool.Close()
+	return SearchP(pool, "", addViol, addSample, maxDepth, deadline, sampleEvery)
+}
+
+// SearchP is SearchF on a shared worker pool; tag selects the model in multi-model workers.
+func SearchP(pool *Pool, tag string, addViol func(common.Violation), addSample func(any), maxDepth int, deadline time.Time, sampleEvery int) *Stats {
+	procs := pool.procs
 	st := &Stats{Exhaustive: true, Counters: map[string]int{}, PerKind: map[string]int{}, Results: map[string]int{}}
 	seen := map[string]bool{}
 	frontier := []node{{}}
@@ -339,18 +409,16 @@ func SearchF(addViol func(common.Violation), addSample func(any), workerArgs []s
 							stopMu.Unlock()
 							continue
 						}
-						if w == nil || w.n >= 2000 {
-							if w != nil {
-								w.closer()
-							}
+						if w == nil {
 							var err error
-							w, err = startWorker(workerArgs)
+							w, err = pool.get()
 							if err != nil {
 								resCh <- &JobResult{Job: jb, Err: err.Error()}
 								w = nil
 								continue
 							}
 						}
+						jb.Tag = tag
 						w.n++
 						b, _ := json.Marshal(jb)
 						w.stdin.Write(b)
@@ -370,7 +438,7 @@ func SearchF(addViol func(common.Violation), addSample func(any), workerArgs []s
 						resCh <- &r
 					}
 					if w != nil {
-						w.closer()
+						pool.put(w)
 					}
 				}()
 			}
